@@ -297,6 +297,9 @@ func propC06(c *Ctx) {
 		c.Check("R6.4", "latest/arms-selected-by-query-outcome", lt.Pos(), okGuard, "the scanned row is returned when the query succeeded; start/head arms only under pgx.ErrNoRows")
 	}
 
+	c.Rule("R6.6", "the source client's cache serves only the segment fetched for exactly the requested (start, limit): a clipped batch cannot receive blocks beyond stop", 3)
+	checkCacheKeyIdentity(c, "R6.6")
+
 	// ---- R6.5 ---------------------------------------------------------
 	c.Rule("R6.5", "the task's range is the integration's own source reference's start/stop", 2)
 	lm := newLoadTasksModel(c)
